@@ -56,3 +56,25 @@ def controls_facts():
 
 def _ctl_hash():
     return facts._hash_tree(os.path.join(VERIF, "controls"), exts=(".rs", ".toml"))[:16]
+
+
+def run_witnesses():
+    """Build the compile-fail witness crate against REPO with `cargo +nightly test --doc`; returns [(name, kind, ok)]."""
+    import re, tempfile
+    src = os.path.join(VERIF, "witness")
+    d = os.path.join(WORK, "witness-%s" % facts._hash_tree(src, exts=(".rs", ".toml"))[:16])
+    os.makedirs(d, exist_ok=True)
+    shutil.copytree(src, d, dirs_exist_ok=True, ignore=shutil.ignore_patterns("target", "Cargo.lock"))
+    with open(os.path.join(d, "Cargo.toml")) as fh:
+        t = fh.read()
+    with open(os.path.join(d, "Cargo.toml"), "w") as fh:
+        fh.write(t.replace("/repo/", facts.REPO + "/"))
+    shutil.copy(os.path.join(facts.REPO, "Cargo.lock"), os.path.join(d, "Cargo.lock"))
+    env = dict(os.environ, CARGO_TARGET_DIR=os.path.join(facts.shared_target(), "witness"), CARGO_NET_OFFLINE="true", CARGO_TERM_COLOR="never")
+    env.pop("RUSTC_WRAPPER", None)
+    env.pop("RUSTFLAGS", None)
+    p = subprocess.run(["cargo", "+nightly", "test", "--doc", "--offline"], cwd=d, env=env, stdout=subprocess.PIPE, stderr=subprocess.STDOUT, text=True)
+    out = []
+    for m in re.finditer(r"^test src/lib.rs - (\w+) \(line (\d+)\) - (compile fail|compile) \.\.\. (\w+)", p.stdout, re.M):
+        out.append((m.group(1), m.group(3), m.group(4) == "ok"))
+    return out, p.stdout[-3000:]
